@@ -1,6 +1,7 @@
 import Cuke.Driver.EvCodec
 import Cuke.Model.Reporters
 import Cuke.Model.ReportMon
+import Cuke.Model.BasicWriter
 /-! `report.run <features without path> <events>` → `LT … ; JU … ; JS …` -/
 namespace Cuke.Driver
 open Cuke Cuke.Wire Cuke.Rep
@@ -45,17 +46,36 @@ def showJFeat : JFeat → String
   | .errors i => s!"E {i}"
   | .feature f els => s!"F {f} {showList showJElem els}"
 
+def showRetryPair (r : Option (Nat × Nat)) : String := showOpt (fun (p : Nat × Nat) => s!"{p.1} {p.2}") r
+
+def showBLine : BLine → String
+  | .parseErr i => s!"PE {i}"
+  | .feature f => s!"F {f}"
+  | .rule ind r => s!"R {ind} {r}"
+  | .scenario ind sc retry => s!"S {ind} {sc} {showRetryPair retry}"
+  | .step ind bg i r loc => s!"T {ind} {showBool bg} {i} {showStepRes r} {showOpt toString loc}"
+  | .hook ind before p loc => s!"H {ind} {showBool before} {p} {loc}"
+  | .log m => s!"L {m}"
+
 def handleReportRun : Toks → Option String :=
   fun ts => runAll (do
     let nopath ← list nat
+    -- features sharing the source path of another feature: (feature, the feature whose path it shares)
+    let alias ← list (do let a ← nat; let b ← nat; pure (a, b))
     let evs ← list evP
     let hasPath : Nat → Bool := fun f => !nopath.contains f
+    let rep : Nat → Nat := fun f => ((alias.find? (fun p => p.1 == f)).map (·.2)).getD f
     let lt := (ltRun hasPath evs).2
     let ju := match junitRun evs with
       | some r => showList showJSuite r
       | none => "!panic"
     let js := jsonRun hasPath evs
-    pure s!"LT {showList showLtRec lt} ; JU {ju} ; JS {showList showJFeat js}") ts
+    -- a printed location `path:line:col` names a path, i.e. the representative of the features sharing it
+    let ba := (basicRun evs).2.map (fun l => match l with
+      | .step ind bg i r (some f) => BLine.step ind bg i r (some (rep f))
+      | .hook ind before p f => BLine.hook ind before p (rep f)
+      | l => l)
+    pure s!"LT {showList showLtRec lt} ; JU {ju} ; JS {showList showJFeat js} ; BA {showList showBLine ba}") ts
 
 /-! wire parsers of the parsed-back records (inverse of the printers above) -/
 
